@@ -104,6 +104,21 @@ def nested_function(nparams):
     return 'template/nested-function-%dparams' % nparams, _program([outer])
 
 
+def nested_function_generic(projected):
+    """class Pair<T1, T2>;  fun outer(): Unit { fun inner(q: Pair<String, Int> | Pair<out String, Int>, n: Int): Int = n;
+    val r: Int = inner(Pair<String, Int>(), 2) }  -- a nested function with a parameter type of two type arguments"""
+    T1, T2 = tp.TypeParameter('T1'), tp.TypeParameter('T2')
+    Pair = ast.ClassDeclaration('Pair', [], ast.ClassDeclaration.REGULAR, fields=[], functions=[], type_parameters=[T1, T2])
+    qt = Pair.get_type().new([tp.WildCardType(kt.String, tp.Covariant) if projected else kt.String, kt.Integer])
+    params = [ast.ParameterDeclaration('q', qt), ast.ParameterDeclaration('n', kt.Integer)]
+    inner = ast.FunctionDeclaration('inner', params, kt.Integer, ast.Variable('n'), ast.FunctionDeclaration.FUNCTION)
+    call = ast.FunctionCall('inner', [ast.CallArgument(ast.New(Pair.get_type().new([kt.String, kt.Integer]), [])),
+                                      ast.CallArgument(ast.IntegerConstant(2, kt.Integer))])
+    r = ast.VariableDeclaration('r', call, is_final=True, var_type=kt.Integer)
+    outer = ast.FunctionDeclaration('outer', [], kt.Unit, ast.Block([inner, r]), ast.FunctionDeclaration.FUNCTION)
+    return 'template/nested-function-generic-%s' % ('projected' if projected else 'plain'), _program([Pair, outer])
+
+
 def abstract_generic_method(kind):
     """interface / abstract class I { fun <T, U> convert(x: T): U }  and a regular class with a generic method"""
     T, U = tp.TypeParameter('T'), tp.TypeParameter('U')
@@ -157,6 +172,60 @@ def generic_call(as_initialiser, widened):
             _program([Q, foo, bar]))
 
 
+def nested_reassign(widen_any, depth2):
+    """fun outer(p: String) { fun inner() { var y: Any = p; y = Any() | "t" } }  -- the initialiser comes from the
+    enclosing function"""
+    y = ast.VariableDeclaration('y', ast.Variable('p'), is_final=False, var_type=kt.Any)
+    asg = ast.Assignment('y', ast.New(kt.Any, []) if widen_any else ast.StringConstant('t'), None)
+    inner = ast.FunctionDeclaration('inner', [], kt.Unit, ast.Block([y, asg]), ast.FunctionDeclaration.FUNCTION)
+    body = [inner]
+    if depth2:
+        mid = ast.FunctionDeclaration('mid', [], kt.Unit, ast.Block([inner]), ast.FunctionDeclaration.FUNCTION)
+        body = [mid]
+    outer = ast.FunctionDeclaration('outer', [ast.ParameterDeclaration('p', kt.String)], kt.Unit, ast.Block(body),
+                                    ast.FunctionDeclaration.FUNCTION)
+    return 'template/nested-reassign-%s-%s' % ('any' if widen_any else 'str', 'deep' if depth2 else 'flat'), _program([outer])
+
+
+def generic_call_operand(op_kind, targ_bool):
+    """fun <T> pick(): T = <bottom>;  val b: Boolean = (pick<Boolean | Any>() == true)  |  val c: Boolean = (pick<Boolean>() && true)
+    -- the operand position of an operator gives the call no expected type"""
+    T = tp.TypeParameter('T')
+    pick = ast.FunctionDeclaration('pick', [], T, ast.BottomConstant(T), ast.FunctionDeclaration.FUNCTION, type_parameters=[T])
+    call = ast.FunctionCall('pick', [], type_args=[kt.Boolean if targ_bool else kt.Any])
+    if op_kind == 0:
+        e = ast.EqualityExpr(call, ast.BooleanConstant('true'), ast.Operator('=='))
+    else:
+        e = ast.LogicalExpr(call, ast.BooleanConstant('true'), ast.Operator('&&'))
+    b = ast.VariableDeclaration('b', e, is_final=True, var_type=kt.Boolean)
+    use = ast.FunctionDeclaration('use', [], kt.Unit, ast.Block([b]), ast.FunctionDeclaration.FUNCTION)
+    p = _program([pick, use])
+    p.context.add_type(ast.GLOBAL_NAMESPACE + ('pick',), 'T', T)
+    return 'template/generic-call-operand-%s-%s' % ('eq' if op_kind == 0 else 'and', 'bool' if targ_bool else 'any'), p
+
+
+def generic_new_null(ctx, untyped_null):
+    """class Apple; class Box<T>(val f: T) { fun label(): String = "s" };
+    fun use(): String = Box<Apple>(null | Apple()).label()      (ctx 0: receiver position)
+    fun use(): Unit { val x: Any = Box<Apple>(null | Apple()) } (ctx 1: declared top type)
+    -- with an untyped null nothing but the explicit type argument fixes T"""
+    T = tp.TypeParameter('T')
+    Apple = ast.ClassDeclaration('Apple', [], ast.ClassDeclaration.REGULAR, fields=[], functions=[])
+    label = ast.FunctionDeclaration('label', [], kt.String, ast.StringConstant('s'), ast.FunctionDeclaration.CLASS_METHOD)
+    Box = ast.ClassDeclaration('Box', [], ast.ClassDeclaration.REGULAR, fields=[ast.FieldDeclaration('f', T)],
+                               functions=[label], type_parameters=[T])
+    arg = ast.BottomConstant(None) if untyped_null else ast.New(Apple.get_type(), [])
+    new = ast.New(Box.get_type().new([Apple.get_type()]), [arg])
+    if ctx == 0:
+        use = ast.FunctionDeclaration('use', [], kt.String, ast.FunctionCall('label', [], receiver=new),
+                                      ast.FunctionDeclaration.FUNCTION)
+    else:
+        x = ast.VariableDeclaration('x', new, is_final=True, var_type=kt.Any)
+        use = ast.FunctionDeclaration('use', [], kt.Unit, ast.Block([x]), ast.FunctionDeclaration.FUNCTION)
+    return ('template/generic-new-%s-%s' % ('receiver' if ctx == 0 else 'top', 'null' if untyped_null else 'value'),
+            _program([Apple, Box, use]))
+
+
 _BUILDERS = {}
 
 
@@ -179,6 +248,7 @@ def all_templates():
     for n in (2, 4, 5):
         _reg(out, nested_function, n)
     for k in (0, 1):
+        _reg(out, nested_function_generic, k)
         _reg(out, abstract_generic_method, k)
         _reg(out, block_function, k)
     _reg(out, scope_without_declarations)
@@ -204,4 +274,9 @@ def all_templates():
     for i in (0, 1):
         for wd in (0, 1):
             _reg(out, generic_call, i, wd)
+            _reg(out, nested_reassign, i, wd)
+            _reg(out, generic_new_null, i, wd)
+    _reg(out, generic_call_operand, 0, 1)
+    _reg(out, generic_call_operand, 0, 0)
+    _reg(out, generic_call_operand, 1, 1)
     return out
